@@ -132,6 +132,8 @@ inductive IR where
   | aggLet (x : Name) (v b : IR)                  -- `AggLet … False`: `v` lives in the agg scope, binds `x` in the agg scope of `b`
   | aggFilter (c b : IR)                            -- `AggFilter False`: `c` lives in the agg scope
   | agg (op : AggOp) (a : IR)                       -- `ApplyAggOp op () (a)`: `a` lives in the agg scope
+  | aggExplode (x : Name) (s b : IR)              -- `AggExplode x False`: `s` (a stream) lives in the agg scope, binds `x` in the agg scope of `b`
+  | aggGroupBy (k b : IR)                           -- `AggGroupBy False`: `k` lives in the agg scope; a dict key -> `b` over the elements with that key
   deriving DecidableEq
 
 /-! ## Primitive operations -/
@@ -276,6 +278,26 @@ def pairOf : Val → Option (Val × Val)
   | .struct [(_, k), (_, v)] => some (k, v)
   | _ => none
 
+/-- equality of group-by keys: decided for scalar keys only (the generated programs group by int32 / bool keys; a
+non-scalar key is its own group) -/
+def keyEq : Val → Val → Bool
+  | .i32 a, .i32 b => decide (a = b)
+  | .i64 a, .i64 b => decide (a = b)
+  | .bool a, .bool b => decide (a = b)
+  | .str a, .str b => decide (a = b)
+  | .na, .na => true
+  | _, _ => false
+
+/-- the distinct keys, in order of first appearance (the engine sorts them; no statement here depends on the order) -/
+def dedupKeys : List Val → List Val
+  | [] => []
+  | k :: ks => k :: (dedupKeys ks).filter fun k' => !keyEq k k'
+
+/-- `AggExplode`: one element environment per element of the exploded stream -/
+def explodeEnv (x : Name) (σ : Env) : Except Val (List Val) → List Env
+  | .ok vs => vs.map fun w => (x, w) :: σ
+  | .error _ => []
+
 /-- `StreamScan`: every intermediate accumulator, the zero first -/
 def scanVals (f : Val → Val → Val) : Val → List Val → List Val
   | s, [] => [s]
@@ -377,6 +399,9 @@ def eval (ρ : Env) (A : List Env) : IR → Val
   | .aggFilter c b => eval ρ (A.filter fun σ => isTrue (eval σ [] c)) b
   | .agg .max a => maxVals (A.map fun σ => eval σ [] a)
   | .agg .collect a => .arr (A.map fun σ => eval σ [] a)
+  | .aggExplode x s b => eval ρ (A.flatMap fun σ => explodeEnv x σ (asArr (eval σ [] s))) b
+  | .aggGroupBy k b =>
+    .dict ((dedupKeys (A.map fun σ => eval σ [] k)).map fun kv => (kv, eval ρ (A.filter fun σ => keyEq (eval σ [] k) kv) b))
 
 /-! ## Free variables of the value scope (`IR.free_vars`) -/
 
@@ -384,7 +409,7 @@ def remove (x : Name) (l : List Name) : List Name := l.filter fun y => decide (y
 
 /-- nodes of the aggregation context -/
 def aggFree : IR → Bool
-  | .streamAgg .. | .aggLet .. | .aggFilter .. | .agg .. => false
+  | .streamAgg .. | .aggLet .. | .aggFilter .. | .agg .. | .aggExplode .. | .aggGroupBy .. => false
   | .i32 _ | .i64 _ | .f32 _ | .f64 _ | .str _ | .bool _ | .na _ | .ref _ | .anil _ | .snil | .tnil => true
   | .cast a _ | .ascribe a _ | .isNA a | .un _ a | .arrayLen a | .toArray a | .toStream a | .getField a _ | .getTupleElement a _
   | .toSet a | .toDict a => aggFree a
@@ -411,8 +436,8 @@ def fv : IR → List Name
   | .streamFold acc v a z b => fv a ++ fv z ++ remove acc (remove v (fv b))
   | .streamScan acc v a z b => fv a ++ fv z ++ remove acc (remove v (fv b))
   | .streamAgg y a q => fv a ++ fv q ++ remove y (fva q)
-  | .aggLet _ _ b => fv b
-  | .aggFilter _ b => fv b
+  | .aggLet _ _ b | .aggExplode _ _ b => fv b
+  | .aggFilter _ b | .aggGroupBy _ b => fv b
   | .agg _ _ => []
 /-- `free_agg_vars`: the variables read from the (element environments of the) aggregation scope -/
 def fva : IR → List Name
@@ -423,8 +448,8 @@ def fva : IR → List Name
   | .let_ _ a b | .streamMap _ a b | .streamFilter _ a b => fva a ++ fva b
   | .ite a b c | .streamFold _ _ a b c | .streamScan _ _ a b c => fva a ++ fva b ++ fva c
   | .streamAgg _ a _ => fva a
-  | .aggLet y e b => fv e ++ remove y (fva b)
-  | .aggFilter c b => fv c ++ fva b
+  | .aggLet y e b | .aggExplode y e b => fv e ++ remove y (fva b)
+  | .aggFilter c b | .aggGroupBy c b => fv c ++ fva b
   | .agg _ a => fv a
 end
 
@@ -479,6 +504,10 @@ inductive WellScoped : List Name → Option (List Name) → IR → Prop
   | aggFilter : WellScoped D none c → WellScoped Γ (some D) b → WellScoped Γ (some D) (.aggFilter c b)
   /-- `BaseApplyAggOp._compute_type`: sequence-operation arguments in `(agg_env, None)` -/
   | agg : WellScoped D none a → WellScoped Γ (some D) (.agg op a)
+  /-- `AggExplode._compute_type`: the stream in `(agg_env, None)`, the body in `(env, agg_env + x)` -/
+  | aggExplode : WellScoped D none s → WellScoped Γ (some (x :: D)) b → WellScoped Γ (some D) (.aggExplode x s b)
+  /-- `AggGroupBy._compute_type`: the key in `(agg_env, None)` -/
+  | aggGroupBy : WellScoped D none k → WellScoped Γ (some D) b → WellScoped Γ (some D) (.aggGroupBy k b)
 
 /-- executable scope checker (proved sound and complete for `WellScoped` in `Proofs/ExprIR.lean`) -/
 def scopeOk (Γ : List Name) (Δ : Option (List Name)) : IR → Bool
@@ -494,10 +523,10 @@ def scopeOk (Γ : List Name) (Δ : Option (List Name)) : IR → Bool
   | .streamFold acc v a z b => scopeOk Γ Δ a && scopeOk Γ Δ z && scopeOk (v :: acc :: Γ) Δ b
   | .streamScan acc v a z b => scopeOk Γ Δ a && scopeOk Γ Δ z && scopeOk (v :: acc :: Γ) Δ b
   | .streamAgg x a q => scopeOk Γ Δ a && scopeOk Γ (some (x :: Γ)) q
-  | .aggLet x v b => match Δ with
+  | .aggLet x v b | .aggExplode x v b => match Δ with
     | some D => scopeOk D none v && scopeOk Γ (some (x :: D)) b
     | none => false
-  | .aggFilter c b => match Δ with
+  | .aggFilter c b | .aggGroupBy c b => match Δ with
     | some D => scopeOk D none c && scopeOk Γ (some D) b
     | none => false
   | .agg _ a => match Δ with
@@ -520,9 +549,10 @@ def names : IR → List Name
   | .cast a _ | .ascribe a _ | .isNA a | .un _ a | .arrayLen a | .toArray a | .toStream a | .getField a _ | .getTupleElement a _
   | .toSet a | .toDict a | .agg _ a => names a
   | .bin _ a b | .cmp _ a b | .acons a b | .arrayRef a b | .scons _ a b | .insertField a _ b | .tcons a b | .dictGet a b
-  | .aggFilter a b => names a ++ names b
+  | .aggFilter a b | .aggGroupBy a b => names a ++ names b
   | .ite a b c => names a ++ names b ++ names c
-  | .let_ x a b | .streamMap x a b | .streamFilter x a b | .streamAgg x a b | .aggLet x a b => x :: (names a ++ names b)
+  | .let_ x a b | .streamMap x a b | .streamFilter x a b | .streamAgg x a b | .aggLet x a b | .aggExplode x a b =>
+    x :: (names a ++ names b)
   | .streamFold acc w a z b => acc :: w :: (names a ++ names z ++ names b)
   | .streamScan acc w a z b => acc :: w :: (names a ++ names z ++ names b)
 
@@ -531,7 +561,7 @@ def names : IR → List Name
 aggregator applications and `AggFilter` (`uses_agg_capability`), inherited from children — but not from the query of a
 `StreamAgg`, which binds it, nor from aggregation-scope children. -/
 def usesAgg : IR → Bool
-  | .agg .. | .aggFilter .. => true
+  | .agg .. | .aggFilter .. | .aggExplode .. | .aggGroupBy .. => true
   | .aggLet _ _ b => usesAgg b
   | .streamAgg _ a _ => usesAgg a
   | .i32 _ | .i64 _ | .f32 _ | .f64 _ | .str _ | .bool _ | .na _ | .ref _ | .anil _ | .snil | .tnil => false
@@ -579,6 +609,8 @@ def subst (x : Name) (v : IR) : IR → IR
   | .aggLet y e b => .aggLet y e (subst x v b)
   | .aggFilter c b => .aggFilter c (subst x v b)
   | .agg op a => .agg op a
+  | .aggExplode y e b => .aggExplode y e (subst x v b)
+  | .aggGroupBy c b => .aggGroupBy c (subst x v b)
 
 /-- `subst x v t` means what it should when `F = fv v`, `FA = fva v` and `dep = usesAgg v`:
 * on the way to a free occurrence of `x` no binder of `t` binds a variable of `F`;
@@ -598,7 +630,7 @@ def substOk (x : Name) (F FA : List Name) (dep : Bool) : IR → Bool
     substOk x F FA dep a && substOk x F FA dep z &&
       (decide (acc = x ∨ w = x) || decide (x ∉ fv b) || (decide (acc ∉ F) && decide (w ∉ F) && substOk x F FA dep b))
   | .streamAgg y a q => substOk x F FA dep a && decide (x ∉ fv q ++ remove y (fva q))
-  | .aggFilter _ b => decide (x ∉ fv b) || (!dep && substOk x F FA dep b)
+  | .aggFilter _ b | .aggGroupBy _ b | .aggExplode _ _ b => decide (x ∉ fv b) || (!dep && substOk x F FA dep b)
   | .aggLet y _ b => decide (x ∉ fv b) || ((!dep || decide (y ∉ FA)) && substOk x F FA dep b)
   | .agg _ _ => true
 
@@ -637,6 +669,8 @@ def substA (x : Name) (v : IR) : IR → IR
   | .aggLet y e b => .aggLet y (subst x v e) (if y = x then b else substA x v b)
   | .aggFilter c b => .aggFilter (subst x v c) (substA x v b)
   | .agg op a => .agg op (subst x v a)
+  | .aggExplode y e b => .aggExplode y (subst x v e) (if y = x then b else substA x v b)
+  | .aggGroupBy c b => .aggGroupBy (subst x v c) (substA x v b)
 
 /-- `substA x v t` means what it should (`F = fv v`, `FA = fva v`, `dep = usesAgg v`): in every aggregation-scope child the
 value-scope substitution is fine (`substOk`), and no `AggLet` on the way rebinds a variable of `v` -/
@@ -649,8 +683,9 @@ def substAOk (x : Name) (F FA : List Name) (dep : Bool) : IR → Bool
   | .ite a b c | .streamFold _ _ a b c | .streamScan _ _ a b c =>
     substAOk x F FA dep a && substAOk x F FA dep b && substAOk x F FA dep c
   | .streamAgg _ a _ => substAOk x F FA dep a
-  | .aggLet y e b => substOk x F FA dep e && (decide (y = x) || (decide (y ∉ F) && substAOk x F FA dep b))
-  | .aggFilter c b => substOk x F FA dep c && substAOk x F FA dep b
+  | .aggLet y e b | .aggExplode y e b =>
+    substOk x F FA dep e && (decide (y = x) || (decide (y ∉ F) && substAOk x F FA dep b))
+  | .aggFilter c b | .aggGroupBy c b => substOk x F FA dep c && substAOk x F FA dep b
   | .agg _ a => substOk x F FA dep a
 
 /-- the names `CSEAnalysisPass.uid` generates -/
@@ -693,6 +728,8 @@ def inlineCse : IR → IR
   | .streamAgg y a q => .streamAgg y (inlineCse a) (inlineCse q)
   | .aggFilter c b => .aggFilter (inlineCse c) (inlineCse b)
   | .agg op a => .agg op (inlineCse a)
+  | .aggExplode y e b => .aggExplode y (inlineCse e) (inlineCse b)
+  | .aggGroupBy c b => .aggGroupBy (inlineCse c) (inlineCse b)
 
 /-- every substitution `inlineCse` performs means what it should (`substOk` / `substAOk` on the inlined pieces) -/
 def inlineOk : IR → Bool
@@ -706,7 +743,8 @@ def inlineOk : IR → Bool
   | .cast a _ | .ascribe a _ | .isNA a | .un _ a | .arrayLen a | .toArray a | .toStream a | .getField a _ | .getTupleElement a _
   | .toSet a | .toDict a | .agg _ a => inlineOk a
   | .bin _ a b | .cmp _ a b | .acons a b | .arrayRef a b | .scons _ a b | .insertField a _ b | .tcons a b | .dictGet a b
-  | .streamMap _ a b | .streamFilter _ a b | .streamAgg _ a b | .aggFilter a b => inlineOk a && inlineOk b
+  | .streamMap _ a b | .streamFilter _ a b | .streamAgg _ a b | .aggFilter a b | .aggExplode _ a b | .aggGroupBy a b =>
+    inlineOk a && inlineOk b
   | .ite a b c | .streamFold _ _ a b c | .streamScan _ _ a b c => inlineOk a && inlineOk b && inlineOk c
 
 /-- The verified translation validator: `rendered` (the CSE renderer's output) against `plain` (the same DAG printed as a
@@ -723,7 +761,8 @@ def countRef (x : Name) : IR → Nat
   | .cast a _ | .ascribe a _ | .isNA a | .un _ a | .arrayLen a | .toArray a | .toStream a | .getField a _ | .getTupleElement a _
   | .toSet a | .toDict a | .agg _ a => countRef x a
   | .bin _ a b | .cmp _ a b | .acons a b | .arrayRef a b | .scons _ a b | .insertField a _ b | .tcons a b | .dictGet a b
-  | .let_ _ a b | .streamMap _ a b | .streamFilter _ a b | .streamAgg _ a b | .aggLet _ a b | .aggFilter a b =>
+  | .let_ _ a b | .streamMap _ a b | .streamFilter _ a b | .streamAgg _ a b | .aggLet _ a b | .aggFilter a b
+  | .aggExplode _ a b | .aggGroupBy a b =>
     countRef x a + countRef x b
   | .ite a b c | .streamFold _ _ a b c | .streamScan _ _ a b c => countRef x a + countRef x b + countRef x c
 
@@ -734,7 +773,8 @@ def cseBinders : IR → List (Name × Nat)
   | .cast a _ | .ascribe a _ | .isNA a | .un _ a | .arrayLen a | .toArray a | .toStream a | .getField a _ | .getTupleElement a _
   | .toSet a | .toDict a | .agg _ a => cseBinders a
   | .bin _ a b | .cmp _ a b | .acons a b | .arrayRef a b | .scons _ a b | .insertField a _ b | .tcons a b | .dictGet a b
-  | .streamMap _ a b | .streamFilter _ a b | .streamAgg _ a b | .aggFilter a b => cseBinders a ++ cseBinders b
+  | .streamMap _ a b | .streamFilter _ a b | .streamAgg _ a b | .aggFilter a b | .aggExplode _ a b | .aggGroupBy a b =>
+    cseBinders a ++ cseBinders b
   | .ite a b c | .streamFold _ _ a b c | .streamScan _ _ a b c => cseBinders a ++ cseBinders b ++ cseBinders c
 
 /-- is `x` referenced from inside a branch of an `If` of `t`? -/
@@ -744,7 +784,8 @@ def refUnderIf (x : Name) : IR → Bool
   | .cast a _ | .ascribe a _ | .isNA a | .un _ a | .arrayLen a | .toArray a | .toStream a | .getField a _ | .getTupleElement a _
   | .toSet a | .toDict a | .agg _ a => refUnderIf x a
   | .bin _ a b | .cmp _ a b | .acons a b | .arrayRef a b | .scons _ a b | .insertField a _ b | .tcons a b | .dictGet a b
-  | .let_ _ a b | .streamMap _ a b | .streamFilter _ a b | .streamAgg _ a b | .aggLet _ a b | .aggFilter a b =>
+  | .let_ _ a b | .streamMap _ a b | .streamFilter _ a b | .streamAgg _ a b | .aggLet _ a b | .aggFilter a b
+  | .aggExplode _ a b | .aggGroupBy a b =>
     refUnderIf x a || refUnderIf x b
   | .streamFold _ _ a b c | .streamScan _ _ a b c => refUnderIf x a || refUnderIf x b || refUnderIf x c
 
@@ -756,7 +797,8 @@ def branchLocal : IR → Bool
   | .cast a _ | .ascribe a _ | .isNA a | .un _ a | .arrayLen a | .toArray a | .toStream a | .getField a _ | .getTupleElement a _
   | .toSet a | .toDict a | .agg _ a => branchLocal a
   | .bin _ a b | .cmp _ a b | .acons a b | .arrayRef a b | .scons _ a b | .insertField a _ b | .tcons a b | .dictGet a b
-  | .streamMap _ a b | .streamFilter _ a b | .streamAgg _ a b | .aggFilter a b => branchLocal a && branchLocal b
+  | .streamMap _ a b | .streamFilter _ a b | .streamAgg _ a b | .aggFilter a b | .aggExplode _ a b | .aggGroupBy a b =>
+    branchLocal a && branchLocal b
   | .ite a b c | .streamFold _ _ a b c | .streamScan _ _ a b c => branchLocal a && branchLocal b && branchLocal c
 
 /-! ## One step of common-subexpression elimination at the specification level
@@ -811,5 +853,7 @@ def abstractAt (x : Name) (v : IR) (F : List Name) : IR → IR
   | .aggLet y a b => .aggLet y a b
   | .aggFilter a b => .aggFilter a b
   | .agg op a => .agg op a
+  | .aggExplode y a b => .aggExplode y a b
+  | .aggGroupBy a b => .aggGroupBy a b
 
 end HailVerif.ExprIR
